@@ -42,6 +42,8 @@ func execLocal(line string) (impl, oracle string) {
 		return opRid(w[1])
 	case "conn":
 		return opConn(w[1])
+	case "conns":
+		return opConns(w[1])
 	case "disp":
 		return opDisp(w[1])
 	case "mdisp":
